@@ -160,6 +160,7 @@ impl Part for C02 {
         let nh = c.suite.kdf.nh();
         let mut transcript_exports = vec![];
         let mut high: Vec<(u64, Vec<u8>, Vec<u8>)> = vec![];
+        let nh0 = c.suite.kdf.nh();
         for ci in 0..EXPORT_CTX_LENS.len() {
             let ectx = export_ctx(ci, cfg.seed);
             for l in [0usize, 1, nh, nh + 1, 255] {
@@ -181,6 +182,15 @@ impl Part for C02 {
                 expect_bytes(&mut out, &format!("ciphertext at sequence {:#x}", p), &s.seal(&pt, b"hi"), &want);
                 high.push((p, pt, want));
             }
+            // ... including the last one, 2^64-1; Context.Export does not depend on the sequence number, so the
+            // exported secrets are the same before and after the context has used up its sequence numbers
+            s.set_seq(u64::MAX);
+            let pt = bytes(c.fill, 4, 310, cfg.seed);
+            let want = ref_s.seal_at(u64::MAX as u128, b"last", &pt);
+            expect_bytes(&mut out, "ciphertext at sequence 2^64-1", &s.seal(&pt, b"last"), &want);
+            high.push((u64::MAX, pt, want));
+            let ectx = export_ctx(2, cfg.seed);
+            expect_bytes(&mut out, "sender export after the last sequence number was used", &s.export(&ectx, nh0), &ref_s.export(&ectx, nh0).unwrap());
         }
 
         // ---------------- direction R: implementation receiver vs R1-produced wire data ----------------
@@ -206,7 +216,8 @@ impl Part for C02 {
                 }
                 for (p, pt, ct) in &high {
                     r.set_seq(*p);
-                    expect_bytes(&mut out, &format!("receiver opens R1 ciphertext sealed at sequence {:#x}", p), &r.open(ct, b"hi"), pt);
+                    let aad: &[u8] = if *p == u64::MAX { b"last" } else { b"hi" };
+                    expect_bytes(&mut out, &format!("receiver opens R1 ciphertext sealed at sequence {:#x}", p), &r.open(ct, aad), pt);
                 }
                 for ci in 0..EXPORT_CTX_LENS.len() {
                     let ectx = export_ctx(ci, cfg.seed);
